@@ -101,7 +101,13 @@ pub fn dispatch(ctx: &Ctx, extra: &[String]) -> (String, String) {
 		},
 		#[cfg(all(feature = "crypto", feature = "ossl"))]
 		"C14" => {
-			keymon::run_c14(ctx);
+			if ctx.replay.as_ref().map_or(true, |r| r.workload != "cli-files") {
+				keymon::run_c14(ctx);
+			}
+			match arg("cli") {
+				Some(p) => keymon::run_c14_cli(ctx, std::path::Path::new(&p)),
+				None => ctx.count("cli-files:no-cli-argument"),
+			}
 			(
 				"case = one PEM text (kind, DER length); certificates/CSRs/CRLs swept over consecutive DER lengths (residues mod 3 and mod 48 are recorded, a sweep that misses a residue makes the run inconclusive); keys of every family and RSA size".into(),
 				String::new(),
@@ -494,6 +500,50 @@ fn table_dispatch(ctx: &Ctx, arg: &dyn Fn(&str) -> Option<String>) {
 								_ => c.key,
 							};
 							arts.push_str(&format!("{} {} {} {}\n", c.idx, kind, signer, crate::util::hex(&x.der)));
+						}
+					},
+				}
+			}
+			// multi-step sequences every build can run: a CA certificate whose subject key identifier happens to be a hash
+			// of its key (pre-specified, so the crypto-less build can write it) is imported, and the imported parameters
+			// are used with ANOTHER key (roll-over) and as an issuer whose children carry an authority key identifier.
+			// What an import recovers must not depend on the build: same to-be-signed bytes everywhere.
+			for n in 0..24usize {
+				use crate::spec::{IsCaSpec, KidSpec, ParamSpec};
+				use crate::x509;
+				let case = crate::ctx::CaseId::new("import-rollover", ctx.seed, n as u64);
+				let (a, b) = (&keys[n % keys.len()], &keys[(n + 1 + n / keys.len()) % keys.len()]);
+				let spki_a = a.kp.public_key_der();
+				let how = [KidSpec::Sha256, KidSpec::Sha384, KidSpec::Sha512, KidSpec::Pre(vec![n as u8; 20])][n % 4].clone();
+				let mut ca = ParamSpec::minimal();
+				ca.is_ca = IsCaSpec::Ca(None);
+				ca.serial = Some(vec![9, n as u8]);
+				ca.kid = KidSpec::Pre(how.derive(&spki_a));
+				let text = format!("CA key {} with identifier {:?} of its key, imported, re-issued under key {} and used as issuer", a.label, how, b.label);
+				let r = crate::guard(|| -> Result<Option<(Vec<u8>, Vec<u8>)>, String> {
+					let c1 = ca.to_rcgen(None).self_signed(&a.kp).map_err(|e| e.to_string())?;
+					let imp = match rcgen::CertificateParams::from_ca_cert_der(c1.der()) {
+						Ok(p) => p,
+						Err(_) => return Ok(None),
+					};
+					let c2 = imp.self_signed(&b.kp).map_err(|e| e.to_string())?;
+					let (t2, _, _) = x509::split_signed_raw(c2.der(), true)?;
+					let mut leaf = ParamSpec::minimal();
+					leaf.serial = Some(vec![8, n as u8]);
+					leaf.kid = KidSpec::Pre(vec![0x42; 20]);
+					leaf.use_aki = true;
+					let c3 = leaf.to_rcgen(None).signed_by(&a.kp, &c2, &b.kp).map_err(|e| e.to_string())?;
+					let (t3, _, _) = x509::split_signed_raw(c3.der(), true)?;
+					Ok(Some((t2, t3)))
+				});
+				match r {
+					Err(p) => ctx.violation("c16:panic", &case, &text, &p),
+					Ok(Err(e)) => ctx.violation("c16:portable-case-fails", &case, &text, &e),
+					Ok(Ok(None)) => ctx.count("eval:import_rollover_refused"),
+					Ok(Ok(Some((t2, t3)))) => {
+						ctx.count("eval:import_rollover_sequences");
+						for (j, t) in [t2, t3].iter().enumerate() {
+							ev.push(table::Event { case: 1_000_000 + 2 * n + j, phase: "dump".into(), thread: 0, round: 0, tbs: crate::util::fnv64(t), der: 0, det: false, t0: 0, t1: 0 });
 						}
 					},
 				}
